@@ -32,6 +32,7 @@ pub const RECREATES: [&str; 10] =
     ["cheapest", "skip-best", "blinks", "gaps", "nearest", "skip-random", "slice", "farthest", "perturbation", "regret"];
 pub const LOCALS: [&str; 6] =
     ["swap-star", "inter-route-best", "inter-route-random", "intra-route-random", "sequence", "reschedule-departure"];
+pub const HYPERS: [&str; 4] = ["dynamic-search", "dynamic-diversify", "static-search", "static-diversify"];
 pub const SEARCHES: [&str; 9] = [
     "ruin-recreate", "local-search", "decompose", "redistribute", "infeasible", "lkh-improve", "lkh-diversify",
     "default-operator", "weighted-composite",
@@ -578,6 +579,8 @@ pub fn execute(case: &W2Case, cache_checks: bool, per_insertion: bool) -> crate:
         let init_polls = quota.as_ref().map(|q| q.polls.load(Ordering::SeqCst)).unwrap_or(0);
         sys::monitor(|| out.init_polls = init_polls);
 
+        let mut hyper_dynamic = get_dynamic_heuristic(problem.clone(), env.clone());
+        let mut hyper_static = get_static_heuristic(problem.clone(), env.clone());
         for op in &case.script {
             let before = sys::monitor(|| digest_ctx(&current));
             if trace {
@@ -589,6 +592,16 @@ pub fn execute(case: &W2Case, cache_checks: bool, per_insertion: bool) -> crate:
             }
             let (kind, name) = op.split_once(':').unwrap_or(("search", op.as_str()));
             let (child, pending_allowed) = match kind {
+                // one step of a *shipped* hyper-heuristic (its own operator set, weights and selection): the first offspring
+                "hyper" => {
+                    let offspring = match name {
+                        "dynamic-search" => hyper_dynamic.search_many(&refinement_ctx, vec![&current]),
+                        "dynamic-diversify" => hyper_dynamic.diversify_many(&refinement_ctx, vec![&current]),
+                        "static-search" => hyper_static.search_many(&refinement_ctx, vec![&current]),
+                        _ => hyper_static.diversify_many(&refinement_ctx, vec![&current]),
+                    };
+                    (offspring.into_iter().next(), false)
+                }
                 "ruin" => (Some(make_ruin(name, &problem).run(&refinement_ctx, current.deep_copy())), true),
                 "recreate" => (Some(make_recreate(name, env.random.clone()).run(&refinement_ctx, current.deep_copy())), false),
                 "local" => (make_local(name, env.random.clone()).explore(&refinement_ctx, &current), false),
@@ -697,7 +710,8 @@ pub fn make_case(seed: u64, tier: Tier) -> (W2Case, gen::problem::Features) {
             pending = false;
             format!("recreate:{}", p.pick(&RECREATES))
         } else {
-            match p.weighted(&[4, 2, 4, 5]) {
+            match p.weighted(&[4, 2, 4, 5, 3]) {
+                4 => format!("hyper:{}", p.pick(&HYPERS)),
                 0 => {
                     pending = true;
                     format!("ruin:{}", p.pick(&RUINS))
